@@ -452,6 +452,18 @@ theorem defPosting_node {j : Journal} {tx : Transaction} {p : Posting} {c : Cur}
     rw [hitNode, commodityAt_eq hc]
     exact Or.inr (posting_range_mem ht hp (postingCommodities_mem hcm))
 
+/-- The located commodity of a directive: computed from the symbol when the tree has no End for
+    it, otherwise the range stored in the tree. -/
+theorem directiveCommodityHit_node {j : Journal} {d : Directive} (nm : Bytes) {cm : Commodity}
+    (hd : d ∈ j.directives) (hc : cm.range ∈ directiveRanges d) :
+    hitNode j (directiveCommodityHit nm cm) := by
+  unfold hitNode directiveCommodityHit directiveCommodityRange
+  cases h : cm.range.stop == Pos.zero
+  · right
+    simp only [bne, h, Bool.not_false, if_true]
+    exact dir_range_mem hd hc
+  · left; rfl
+
 theorem defDirective_node {j : Journal} {d : Directive} {c : Cur} {h : Hit}
     (hd : d ∈ j.directives) (hh : defDirective c d = some h) : hitNode j h := by
   cases d with
@@ -463,12 +475,12 @@ theorem defDirective_node {j : Journal} {d : Directive} {c : Cur} {h : Hit}
   | commodity cm f n sub r =>
     simp only [defDirective] at hh
     split at hh
-    · simp at hh; subst hh; exact Or.inl rfl
+    · simp at hh; subst hh; exact directiveCommodityHit_node _ hd (by simp [directiveRanges])
     · simp at hh
   | price dt cm p r =>
     simp only [defDirective] at hh
     split at hh
-    · simp at hh; subst hh; exact Or.inl rfl
+    · simp at hh; subst hh; exact directiveCommodityHit_node _ hd (by simp [directiveRanges])
     · rw [hitNode, commodityAt_eq hh]
       exact Or.inr (dir_range_mem hd (by simp [directiveRanges, amountRanges]))
   | year y r => simp [defDirective] at hh
@@ -635,6 +647,80 @@ theorem sortAndDedup_sub {α} (l : List (α × LRange)) : ∀ x ∈ sortAndDedup
   intro x hx
   exact sortStart_sub _ x (dedupAdj_sub _ x hx)
 
+
+theorem LRange.eq_of_beq {a b : LRange} (h : (a == b) = true) : a = b := by
+  cases a; cases b
+  have := h
+  simp only [BEq.beq] at this
+  simp_all [instBEqLRange.beq]
+
+theorem mem_insertLe_self {α} (x : α × LRange) (l : List (α × LRange)) : x ∈ insertLe x l := by
+  induction l with
+  | nil => simp [insertLe]
+  | cons y ys ih => simp only [insertLe]; split <;> simp [ih]
+
+theorem mem_insertLe_of_mem {α} (x z : α × LRange) (l : List (α × LRange)) (h : z ∈ l) : z ∈ insertLe x l := by
+  induction l with
+  | nil => cases h
+  | cons y ys ih =>
+    simp only [insertLe]
+    split
+    · simp only [List.mem_cons] at h ⊢; exact Or.inr h
+    · simp only [List.mem_cons] at h ⊢
+      rcases h with h | h
+      · exact Or.inl h
+      · exact Or.inr (ih h)
+
+theorem sortStart_sup {α} (l : List (α × LRange)) : ∀ x ∈ l, x ∈ sortStart l := by
+  induction l with
+  | nil => intro x hx; cases hx
+  | cons y ys ih =>
+    intro x hx
+    simp only [sortStart, List.foldr_cons]
+    simp only [List.mem_cons] at hx
+    rcases hx with rfl | hx
+    · exact mem_insertLe_self _ _
+    · exact mem_insertLe_of_mem _ _ _ (ih x hx)
+
+theorem dedupFrom_sup {α} (l : List (α × LRange)) : ∀ (p x : α × LRange), (x = p ∨ x ∈ l) →
+    ∃ y ∈ dedupFrom p l, y.2 = x.2 := by
+  induction l with
+  | nil =>
+    intro p x hx
+    rcases hx with rfl | hx
+    · exact ⟨x, by simp [dedupFrom], rfl⟩
+    · cases hx
+  | cons y rest ih =>
+    intro p x hx
+    simp only [dedupFrom]
+    split
+    · rename_i heq
+      have he := LRange.eq_of_beq heq
+      rcases hx with rfl | hx
+      · exact ih x x (Or.inl rfl)
+      · simp only [List.mem_cons] at hx
+        rcases hx with rfl | hx
+        · obtain ⟨z, hz, hz2⟩ := ih p p (Or.inl rfl)
+          exact ⟨z, hz, by rw [hz2, he]⟩
+        · exact ih p x (Or.inr hx)
+    · rcases hx with rfl | hx
+      · exact ⟨x, by simp, rfl⟩
+      · obtain ⟨z, hz, hz2⟩ := ih y x (by simpa [List.mem_cons] using hx)
+        exact ⟨z, by simp [hz], hz2⟩
+
+/-- Nothing is lost by `sortAndDedup`: every collected location is in the response (merged with
+    the locations that have the same range). -/
+theorem sortAndDedup_sup {α} (l : List (α × LRange)) : ∀ x ∈ l, ∃ y ∈ sortAndDedup l, y.2 = x.2 := by
+  intro x hx
+  have hs := sortStart_sup l x hx
+  unfold sortAndDedup
+  cases hl : sortStart l with
+  | nil => rw [hl] at hs; cases hs
+  | cons a rest =>
+    rw [hl] at hs
+    simp only [dedupAdj]
+    exact dedupFrom_sup rest a x (by simpa [List.mem_cons] using hs)
+
 /-- Every reference location is the conversion of a hit that was computed by column arithmetic
     or carries a range stored in the tree. -/
 theorem referenceHits_node {j : Journal} {t : Hit} {decl : Bool} {h : Hit}
@@ -659,13 +745,13 @@ theorem referenceHits_node {j : Journal} {t : Hit} {decl : Bool} {h : Hit}
       | commodity cm f n sub r =>
         simp only [commodityRefDirective] at hdd
         split at hdd
-        · simp at hdd; subst hdd; exact Or.inl rfl
+        · simp at hdd; subst hdd; exact directiveCommodityHit_node _ hd (by simp [directiveRanges])
         · simp at hdd
       | price dt cm p r =>
         simp only [commodityRefDirective, List.mem_append] at hdd
         rcases hdd with hdd | hdd
         · split at hdd
-          · simp at hdd; subst hdd; exact Or.inl rfl
+          · simp at hdd; subst hdd; exact directiveCommodityHit_node _ hd (by simp [directiveRanges])
           · simp at hdd
         · split at hdd
           · simp at hdd; subst hdd
@@ -699,16 +785,17 @@ theorem workspaceSymbolHits_node {j : Journal} {h : Hit} (hh : h ∈ workspaceSy
   rcases hh with ⟨d, hd, hdd⟩ | hh
   · split at hdd
     · simp at hdd; subst hdd; exact Or.inl rfl
-    · simp at hdd; subst hdd; exact Or.inl rfl
+    · simp at hdd; subst hdd; exact directiveCommodityHit_node _ hd (by simp [directiveRanges])
     · simp at hdd
   · exact Or.inl (payeeSymbols_derived hh)
 
 /-- Guard of a located element.  Payee estimates, the two halves of a tag and the `nameRange`s of
     definition / references / rename / workspace symbols are computed by column arithmetic, not
     stored in the tree: the guard asks that the computed rune columns be positions of the text
-    (this is what fails when a code, extra blanks or `payee | note` surround the payee, or a
-    directive's commodity is quoted).  Every other element carries a
-    range of the tree and only needs an End.  Nothing is asked about the characters that
+    (this is what fails when a code, extra blanks or `payee | note` surround the payee).  The
+    commodity of a `commodity` / `P` directive carries the range stored in the tree when the
+    parser recorded its End (fix-quoted-commodity-directive.diff), and is computed from the symbol
+    otherwise.  Every other element carries a range of the tree and only needs an End.  Nothing is asked about the characters that
     precede the range. -/
 def hitGuard (doc : Txt) (h : Hit) : Bool :=
   if h.derived then rngSound one doc h.rng else hasEnd h.rng
